@@ -138,8 +138,8 @@ def _c16_tasks(tasks):
         el = cache[key]
         if not el:
             continue
-        if t["assignment"] in C16_THOROUGH_ONLY and not t.get("_thorough"):
-            continue  # > 6000 paths with a free dimension: thorough tier only
+        if (t["assignment"] in C16_THOROUGH_ONLY or len(t["formats"]) >= 5) and not t.get("_thorough"):
+            continue  # > 6000 paths with a free dimension (4 and more sparse operands): thorough tier only
         dv = {k: v for k, v in t["dimvec"].items() if k not in el}
         k2 = (key, tuple(sorted(dv.items())))
         if k2 in seen:
